@@ -38,8 +38,10 @@ EXPLANATION = (
     'anywhere in the package; they are compared, sorted, made unique or used as index of an index lookup. (R6.9, shared '
     'with C05 R5.8) init_results_element rebinds the result table on every path to a fresh frame indexed by the element '
     "table's index; a table kept from an earlier run is addressed by position afterwards and would attach results to the "
-    'labels of the previous row order. Decided: these three mechanisms; not decided: permutation invariance of results as'
-    ' such.')
+    'labels of the previous row order. (R6.10) what is stored at the rows of the keys of a group sum / np.unique '
+    '(increasing label order, whatever the row order of the table) are outputs of a grouping over the same keys, never an'
+    ' input of the grouping or another array selected by the same mask (still in table-row order). Decided: these three '
+    'mechanisms; not decided: permutation invariance of results as such.')
 ASSUMPTIONS = ["numpy fancy indexing semantics", "the sections of one element occupy adjacent pit rows in table order "
                "(established by create_pit_branch_entries via np.repeat)"]
 TECHNIQUE = "label-taint on normal forms of per-class hook summaries; order-kind abstract interpretation; offset-domain check on lookup reads"
